@@ -108,10 +108,15 @@ class BasePlugin(object):
         return ks, mask
 
     def corpus(self):
+        out = []
         path = os.path.join(VERIF, 'corpus', self.id + '.json')
-        if not os.path.exists(path):
-            return []
-        return [self.case_from_json(j) for j in json.load(open(path))]
+        if os.path.exists(path):
+            out += [self.case_from_json(j) for j in json.load(open(path))]
+        # witnesses of repaired defects run first on every run: a fixed entry suppresses nothing
+        for k in common.known_findings(self.id):
+            if k.get('status') == 'fixed' and 'witness' in k:
+                out.append(self.case_from_json(k['witness']))
+        return out
 
     def evaluate(self, cases, tag='run'):
         """-> list of (case, outcome, flags or None if unserialisable)"""
